@@ -338,3 +338,6 @@ M("c19.version-object-string-not-converted", "C19", "behave/active_tag/python.py
   "    def __int__(self, value, compare_func=None):\n        if isinstance(value, six.string_types):\n            value = self.to_version_tuple(value)")
 M("c19.version-tuple-two-parts-only", "C19", "behave/active_tag/python.py", 'return tuple([int(x) for x in version.split(".")])', 'return tuple([int(x) for x in version.split(".")[:2]])')
 M("c04.bom-not-skipped", "C04", "behave/parser.py", 'data = f.read().decode("utf-8-sig")', 'data = f.read().decode("utf8")')
+M("c20.bare-color-last-argument", "C20", "behave/configuration.py",
+  "            if has_next_arg and os.path.exists(command_args[color_arg_pos + 1]):",
+  "            if os.path.exists(command_args[color_arg_pos + 1]):")
